@@ -70,6 +70,19 @@ def run(ctx):
     for i, m in enumerate(muts):
         (deep if m in DEEP else loose).append({"id": "m%d" % i, "script": ["F read " + (m.hex() or "-")], "expect": None,
                                                 "meta": {"kind": "reader/mutant-deep" if m in DEEP else "reader/mutant"}})
+    # (g) input-controlled nesting AT THE PLACES WHERE THE READER SKIPS: a member with an unknown key whose value is nested 60000 deep (arrays,
+    #     indefinite arrays, tags, maps), added to the file preamble's map and to the first block's map of valid files (impl only, 1 MiB stack)
+    for fi, f in enumerate(files[:4]):
+        try:
+            t = refcbor.parse_all(f)
+            hdr = 7 + len(refcbor.encode(t[1][1]))                 # 83 65 'C-DNS' <preamble> | 9f <blocks>
+            if not (f[7] & 0xe0 == 0xa0 and (f[7] & 31) < 22 and f[hdr] == 0x9f and f[hdr + 1] & 0xe0 == 0xa0 and (f[hdr + 1] & 31) < 22): continue
+        except Exception: continue
+        for kind in ("arr1", "iarr", "tag", "map1"):
+            deepv = b"\x18\x63" + cborgen.nest(60000, kind)           # key 99, then the nested value
+            for where, pos in (("preamble", 7), ("block", hdr + 1)):
+                m = f[:pos] + bytes([f[pos] + 1]) + deepv + f[pos + 1:]
+                deep.append({"id": "n%d%s%s" % (fi, kind, where), "script": ["F read " + m.hex()], "expect": None, "meta": {"kind": "reader/unknown-member-nested-deep"}})
     # (e) inputs longer than the decoder window (65535 bytes): truncated inside a long string, length fields inflated beyond the input
     big = []
     for k in range(3 if tier == "quick" else 20):
@@ -156,5 +169,6 @@ def run(ctx):
         "stack and a 256 MiB allocation cap, outcome compared with the model up to the exception class; (c) renderers on arbitrary names / "
         "addresses; (d) the five tools on mutants: exit 0, no sanitizer report; (e) inputs longer than the decoder window cut inside long strings / with "
         "inflated lengths; (f) maps that repeat one key - whole files (8% of the mutants) and each of the 19 structures - what the reader makes of them "
-        "(the block's item vectors and tables append, everything else: last occurrence) compared exactly with the model", diffs, fails)
+        "(the block's item vectors and tables append, everything else: last occurrence) compared exactly with the model; (g) members with unknown keys "
+        "whose value is nested 60000 deep (arrays, indefinite arrays, tags, maps) in the preamble map and the first block map", diffs, fails)
     return {"diffs": diffs, "fails": fails, "to_script": lambda c: common.case_script(c)}
